@@ -287,7 +287,7 @@ def configs(tier):
     if tier == 'quick':
         Gs, Vmax, seq_upto = range(0, 6), 2, 0
     else:
-        Gs, Vmax, seq_upto = range(0, 8), 4, 2
+        Gs, Vmax, seq_upto = range(0, 8), 4, 3
     for G in Gs:
         for V in range(0, Vmax + 1):
             it = (itertools.product((1, 3, 10), repeat=V) if V <= seq_upto
@@ -475,7 +475,7 @@ def check(tier, seed, procs):
                      'steps_without_crash': rows[len(rows) // 2][1][0][1]['steps']}],
         'exhaustive': True,
         'bounds': (f'GVCFs 0..{5 if tier == "quick" else 7}; VDSes 0..{2 if tier == "quick" else 4} with sample counts from '
-                   f'{{1,3,10}} ({"multisets" if tier == "quick" else "all sequences up to 2 VDSes, multisets for 3-4"}); branch_factor 2..4; gvcf_batch_size 1..3; '
+                   f'{{1,3,10}} ({"multisets" if tier == "quick" else "all sequences up to 3 VDSes, multisets for 4"}); branch_factor 2..4; gvcf_batch_size 1..3; '
                    'two argument styles (explicit save_path + vds_sample_counts + header-derived sample ids / generated '
                    'save_path + counted samples + external header and sample names); every single crash point of each '
                    'kind and crash-in-every-life; partitioning: contigs 1, 12, MT with lengths '
